@@ -67,7 +67,7 @@ SCENARIOS = {
     "q_rich": dict(NONE, td=("t1",), tags=("s1",), feat=("anon", "bits", "arr"), n=2),
     "q_fn": dict(NONE, td=("t1",), fn=("f1",), gv=("g1",), feat=("fnp", "file"), n=2),
     # non-vacuity: "strict" and the broken variants must be caught somewhere in here
-    "sanity": dict(NONE, td=("t1", "t2"), tags=("s1", "s2"), feat=("file", "arr", "anon"), n=2),
+    "sanity": dict(NONE, td=("t1",), feat=("file", "arr", "anon"), n=1),
     # ---- thorough tier
     "types2": dict(NONE, td=("t1", "t2"), tags=("s1", "s2"), prims=("int", "char"), feat=("file", "fwd", "union"), n=2),
     "all2": dict(td=("t1", "t2"), tags=("s1", "s2"), en=("e1",), k=("k1",), fn=("f1",), gv=("g1",),
